@@ -22,7 +22,7 @@ NPROC = str(os.cpu_count() or 4)
 TARGET = "target" if os.path.abspath(REPO) == "/repo" else "target_alt"
 
 TRUSTED_BASE = [
-    "Coq 8.16.1 kernel and coqc; vm_compute (bytecode VM) for finite table lemmas; no native_compute",
+    "Coq 8.16.1 kernel and coqc; vm_compute (bytecode VM) for finite table lemmas; no native_compute; thorough tier: coqchk -o re-checks the property's compiled closure (expected: Axioms <none>)",
     "axioms: none declared; Print Assumptions of every property theorem must read 'Closed under the global context' (checked on every run)",
     "tools/gen_tables.py (pattern-directed translator of name tables, charsets, constants, macro index lists, shape pins)",
     "extraction: Require Extraction + ExtrOcamlBasic only (its Extract Inductive for bool, option, unit, list, prod, sumbool, sumor; no Extract Constant); N/nat/positive stay inductives; ocaml/main.ml glue (string <-> list N)",
@@ -274,6 +274,18 @@ def step_coq(ctx, prop_file, cone_files):
                 ok = False
             ctx.print_assumptions = n_pa
             ctx.discharged = total if ok else 0
+    if ok and ctx.tier == "thorough":
+        # independent re-check of the compiled property file and everything it depends on
+        mod = "MPD." + prop_file.replace(".v", "").replace("/", ".")
+        rc3, out3 = sh(["timeout", "1800", "coqchk", "-silent", "-o", "-Q", ".", "MPD", mod], cwd=COQ, timeout=1900)
+        summary = out3[out3.find("CONTEXT SUMMARY"):] if "CONTEXT SUMMARY" in out3 else out3[-1500:]
+        ctx.coqchk = " ".join(summary.split())[:1200]
+        clean = all(f"* {k}: <none>" in summary for k in ("Axioms", "Constants/Inductives relying on type-in-type",
+                                                           "Constants/Inductives relying on unsafe (co)fixpoints",
+                                                           "Inductives whose positivity is assumed"))
+        if rc3 != 0 or not clean:
+            ctx.broken.append(("coqchk", mod, summary[-1500:]))
+            ok = False
     hp = hygiene()
     if hp:
         ctx.broken.append(("hygiene", "forbidden vernacular", "; ".join(hp[:20])))
@@ -435,6 +447,7 @@ def finish(ctx, *, evaluations, distinct_nontrivial, rule, samples, distribution
         "exhaustive": exhaustive,
         "generator_distribution": distribution,
         "print_assumptions_closed": getattr(ctx, "print_assumptions", 0),
+        "coqchk": getattr(ctx, "coqchk", "not run in the quick tier (thorough: coqchk -o on the property's .vo closure)"),
         "tables_translator": ctx.tables_info,
         "correspondence_disagreements": len(disagreements),
         "oracle_failures_known_class": sum(len(v) for v in seen_known.values()),
